@@ -3,6 +3,8 @@ use crate::core::Clause;
 
 pub mod c02;
 pub mod c03;
+pub mod c05;
+pub mod c06;
 pub mod c15;
 pub mod common;
 
@@ -12,6 +14,8 @@ pub fn clauses(property: &str) -> Vec<Clause> {
     match property {
         "C02" => c02::clauses(),
         "C03" => c03::clauses(),
+        "C05" => c05::clauses(),
+        "C06" => c06::clauses(),
         "C15" => c15::clauses(),
         _ => vec![],
     }
@@ -21,6 +25,8 @@ pub fn property_rule(property: &str) -> String {
     match property {
         "C02" => "windowed view run in exact arithmetic (and f64) vs the batch definition over exactly the last N raw values, every step".into(),
         "C03" => "two runs of the same view on histories with different prefixes and a common suffix agree once K suffix values are consumed".into(),
+        "C05" => "Rsi / MyRSI at Q and f64 vs gains and losses over the N most recent values; negation relation".into(),
+        "C06" => "CTI / NET / CoG at Q and f64 vs Pearson r, Kendall tau, CoG formula on full windows; negation and rank-invariance relations".into(),
         "C15" => "no unwind out of update()/last() for any constructed view, both cargo profiles".into(),
         _ => String::new(),
     }
@@ -39,6 +45,14 @@ pub fn property_assumptions(property: &str) -> Vec<String> {
         "C03" => {
             v.push("K table as in the statement (N; N+1 for Rsi/MyRSI/Roc; 2N for Alma; N+M-1 for PFE over Sma(M), N+2M-1 over Alma(M))".into());
             v.push("f64 leg only for views whose floating-point residue is bounded by 1e-9 x magnitude (running sums of inputs or recomputation from the stored window); the ratio views (Welford std, Vst, Vsct, Rsi, MyRSI) are decided in Q and their rounding residue belongs to C16".into());
+        }
+        "C05" => {
+            v.push("MyRSI while the stream has been flat from its first value: no previous output exists and the statement fixes no value (exempt, counted)".into());
+            v.push("f64 leg: flat windows and windows with G+L < max|x|/4096 are exempt (residue of running sums relative to G+L; decided by C16); tolerance scale*(1e-9 + 4.1e-9 (t+1))".into());
+        }
+        "C06" => {
+            v.push("the statement's 'CTI is +1 on any strictly increasing window' is asserted only through Pearson's r (= +1 exactly on arithmetic progressions): the check never demands more than the definition in the same sentence".into());
+            v.push("partial windows: values are checked when reported (NET, CoG) or left open (CTI); f64 leg exempts windows whose spread (CTI) or sum (CoG) is below 1e-3 of their magnitude".into());
         }
         "C15" => v.push("'moderate magnitude' = 0 or 1e-3 <= |x| <= 1e6; f32 legs use |x| <= 32768; positive raw input wherever Drawdown/LnReturn/Divide's divisor need it".into()),
         _ => {}
